@@ -263,7 +263,7 @@ def run_unit(unit):
                 if abs(f2_t - s * f2_0) > TOL * max(1.0, abs(s * f2_0)):
                     part.violation(PID, f'focal-length-{label}', 'Paraxial.f2', cfgc, det, observed=f2_t, expected=s * f2_0, tol=TOL)
                 if np.all(np.isfinite(S0)) and np.all(np.isfinite(St)):
-                    sc = max(1e-9, float(np.max(np.abs(S0))) * abs(s))
+                    sc = max(1e-5, float(np.max(np.abs(S0))) * abs(s))      # sums of 1e-16 are rounding noise of zeros
                     if np.max(np.abs(St - s * S0)) > 1e-8 * sc:
                         cs_ = cfgc
                         if label == 'object-gap-dummy' and sp['surfs'][0]['mat'] == 'mirror' and \
@@ -414,7 +414,7 @@ def run_unit(unit):
                     part.violation(PID, 'scale_system-focal-length', 'Optic.scale_system', cfgc, det, observed=f2_l,
                                    expected=s * f2_0, tol=TOL)
                 if np.all(np.isfinite(S0)) and np.all(np.isfinite(Sl)):
-                    sc = max(1e-9, float(np.max(np.abs(S0))) * abs(s))
+                    sc = max(1e-5, float(np.max(np.abs(S0))) * abs(s))      # sums of 1e-16 are rounding noise of zeros
                     if np.max(np.abs(Sl - s * S0)) > 1e-8 * sc:
                         part.violation(PID, 'scale_system-seidel-sums', 'Optic.scale_system', cfgc, det, observed=Sl, expected=s * S0,
                                        tol=1e-8)
